@@ -161,6 +161,7 @@ func init() {
 		}
 	}
 	c15Extra = func(c *core.Ctx) {
+		c15Depth2(c)
 		level := 2
 		if c.Thorough() {
 			level = 5
@@ -197,6 +198,11 @@ func init() {
 				c15Subtrees(c, cs.srcCase, cs.Node)
 				return
 			}
+		}
+		var d2 c15D2Case
+		if json.Unmarshal(raw, &d2) == nil && d2.Mode == "depth2" {
+			c15D2(c, d2)
+			return
 		}
 		if prev != nil {
 			prev(c, raw)
